@@ -165,18 +165,20 @@ fn emit_wrapped_loop_choice_header(
     }));
 
     let mut s = Vec::new();
+    // Sequences and conditionals inside the text address themselves by path.
+    let s_scope = scope.at_path(joined_path(&scope.path, "s"));
     emit_choice_text_content(
         &choice.start_text,
         &choice.start_tags,
         &mut s,
-        scope,
+        &s_scope,
         context,
     )?;
     emit_choice_text_content(
         &choice.choice_only_text,
         &choice.choice_only_tags,
         &mut s,
-        scope,
+        &s_scope,
         context,
     )?;
     s.push(json!({"->": "$r", "var": true}));
